@@ -16,7 +16,7 @@ pub const PROP: PropDef = PropDef {
     id: "C14",
     parts,
     rule: "(a) on 5 base scripts (failed+no-update, install+reboot wait+ping+reboot, failed install+no-update, unparseable+plan failure, install+two failed pings+reboot): every single failing storage write, every pair, all sets / removes / commits, all writes on one key, everything - compared with the healthy run; (b) every stored key (8 protocol keys + app JSON) set to each of 13 extreme / mistyped values, singles and all pairs, before each base script, also on the stored target version; (c) a wall-clock jump from a 7-entry menu (back 1 h, to 1969, to 1900, +1 h, year 30000, EPOCH+2^62 s) before any clock read, at most 2 per run; (d) every truncation and single-bit flip of 4 response documents, every HTTP status 100-599, header sets (duplicate / invalid X-Retry-After, non-ASCII ETag); (e) 60 service URL strings; all through the real flow with overflow checks on; non-trivial = the fault / value / jump was actually applied",
-    assumptions: &["policy and installer answers conform to their contracts", "log formatting is not exercised (no tracing subscriber installed)"],
+    assumptions: &["policy and installer answers conform to their contracts", "log formatting is exercised only in the two 'with-logging' parts"],
 };
 
 const SCRIPTS: usize = 5;
@@ -469,6 +469,18 @@ fn parts(tier: Tier) -> Vec<PartDef> {
             run_urls,
         ),
     ];
+    v.push(PartDef::new(
+        "stored-values-single-with-logging",
+        Cfg::new("C14/stored-values-single-with-logging"),
+        json!({"keys": KEYS, "values": values().len(), "scripts": SCRIPTS, "logging": "a tracing subscriber that formats every event is installed", "exploration": "full product"}),
+        |ctx| crate::logsink::with_logging(|| run_stored(ctx, false)),
+    ));
+    v.push(PartDef::new(
+        "clock-jumps-with-logging",
+        Cfg::new("C14/clock-jumps-with-logging").dev(1).free(&["script"]),
+        json!({"menu": 7, "max_jumps_per_run": 1, "scripts": SCRIPTS, "logging": "every event formatted"}),
+        |ctx| crate::logsink::with_logging(|| run_clock(ctx)),
+    ));
     if tier == Tier::Thorough {
         v.push(PartDef::new(
             "stored-values-pairs",
